@@ -1,28 +1,34 @@
-(* C18 — lemmas about the model of the subprocess output adapter and of Execute / Output (GU.C18.Model).
-   Route: the adapter's Write (split the chunk on '\n', complete the pending line with the first piece, log every
-   terminated piece, carry the last one) is shown equal to a byte-by-byte machine [feed]; [feed] trivially does not see
-   chunk boundaries; and [feed] followed by the final flush yields exactly the non-empty lines of the stream. *)
+(* C18 — lemmas. Part 1 (Section Ref): facts about splitting on an arbitrary separator byte [sp] and the byte-by-byte
+   machine [feed]. Part 2 (Section Bridge): for every record of facts F with adapter_ok F, the interpreted adapter of
+   Model.v IS that machine; hence it logs exactly the non-empty lines whatever the chunking. Part 3: Execute, exit
+   status and Output for every F satisfying wiring_ok / exec_ok / exit_ok / output_ok. *)
 From Coq Require Import List ZArith Bool Lia.
 Import ListNotations.
 From GU Require Import C18.Model.
 Local Open Scope Z_scope.
 
-(* ---------- split_nl ---------- *)
+Section Ref.
+Variable sp : Z.
 
-Lemma split_nl_nonnil : forall s, split_nl s <> [].
+(* logPending of the repaired adapter: logs the pending line unless it is empty *)
+Definition log_pending (pend : bytes) : list bytes := if nonempty pend then [pend] else [].
+
+(* ---------- split_on sp ---------- *)
+
+Lemma spliton_nonnil : forall s, split_on sp s <> [].
 Proof.
   induction s as [|c r IH]; simpl; [discriminate|].
-  destruct (c =? NL); [discriminate|]. destruct (split_nl r); discriminate.
+  destruct (c =? sp); [discriminate|]. destruct (split_on sp r); discriminate.
 Qed.
 
-Lemma split_nl_cons_nl : forall r, split_nl (NL :: r) = [] :: split_nl r.
-Proof. reflexivity. Qed.
+Lemma spliton_cons_nl : forall r, split_on sp (sp :: r) = [] :: split_on sp r.
+Proof. intros. simpl. now rewrite Z.eqb_refl. Qed.
 
-Lemma split_nl_cons_other : forall c r, (c =? NL) = false ->
-  exists p ps, split_nl r = p :: ps /\ split_nl (c :: r) = (c :: p) :: ps.
+Lemma spliton_cons_other : forall c r, (c =? sp) = false ->
+  exists p ps, split_on sp r = p :: ps /\ split_on sp (c :: r) = (c :: p) :: ps.
 Proof.
-  intros c r H. simpl. rewrite H. destruct (split_nl r) as [|p ps] eqn:E.
-  - exfalso. eapply split_nl_nonnil; eauto.
+  intros c r H. simpl. rewrite H. destruct (split_on sp r) as [|p ps] eqn:E.
+  - exfalso. eapply spliton_nonnil; eauto.
   - eauto.
 Qed.
 
@@ -31,7 +37,7 @@ Qed.
 Fixpoint feed (pend : bytes) (s : bytes) : list bytes * bytes :=
   match s with
   | [] => ([], pend)
-  | c :: r => if c =? NL then let '(o, p) := feed [] r in (log_pending pend ++ o, p)
+  | c :: r => if c =? sp then let '(o, p) := feed [] r in (log_pending pend ++ o, p)
               else feed (pend ++ [c]) r
   end.
 
@@ -40,36 +46,9 @@ Lemma feed_app : forall a b pend,
 Proof.
   induction a as [|c r IH]; intros b pend; simpl.
   - destruct (feed pend b); reflexivity.
-  - destruct (c =? NL).
+  - destruct (c =? sp).
     + rewrite IH. destruct (feed [] r) as [o1 p1]. destruct (feed p1 b) as [o2 p2]. now rewrite app_assoc.
     + apply IH.
-Qed.
-
-(* logStreamer.Write is the byte-by-byte machine run over the chunk. *)
-Lemma write_chunk_feed : forall p pend, write_chunk pend p = feed pend p.
-Proof.
-  unfold write_chunk. induction p as [|c r IH]; intros pend.
-  - simpl. now rewrite app_nil_r.
-  - destruct (c =? NL) eqn:E.
-    + apply Z.eqb_eq in E. subst c. rewrite split_nl_cons_nl. simpl feed.
-      destruct (split_nl r) as [|q qs] eqn:S; [exfalso; eapply split_nl_nonnil; eauto|].
-      change (write_pieces pend ([] :: q :: qs)) with
-        (let '(out, pend') := write_pieces [] (q :: qs) in (log_pending (pend ++ []) ++ out, pend')).
-      rewrite IH. destruct (feed [] r). now rewrite app_nil_r.
-    + destruct (split_nl_cons_other c r E) as (q & qs & S & S'). rewrite S'. simpl feed. rewrite E.
-      rewrite <- IH, S. destruct qs as [|q' qs'].
-      * simpl. now rewrite <- app_assoc.
-      * change (write_pieces pend ((c :: q) :: q' :: qs')) with
-          (let '(out, pend') := write_pieces [] (q' :: qs') in (log_pending (pend ++ c :: q) ++ out, pend')).
-        change (write_pieces (pend ++ [c]) (q :: q' :: qs')) with
-          (let '(out, pend') := write_pieces [] (q' :: qs') in (log_pending ((pend ++ [c]) ++ q) ++ out, pend')).
-        now rewrite <- app_assoc.
-Qed.
-
-Lemma write_stream_feed : forall chunks pend, write_stream pend chunks = feed pend (concat chunks).
-Proof.
-  induction chunks as [|c cs IH]; intros pend; simpl; [reflexivity|].
-  rewrite feed_app, write_chunk_feed. destruct (feed pend c) as [o1 p1]. now rewrite IH.
 Qed.
 
 (* ---------- feed + flush = the non-empty lines ---------- *)
@@ -81,45 +60,34 @@ Lemma log_pending_filter : forall p, log_pending p = filter nonempty [p].
 Proof. intros p. unfold log_pending. simpl. now destruct (nonempty p). Qed.
 
 Lemma feed_lines : forall s pend,
-  fst (feed pend s) ++ log_pending (snd (feed pend s)) = filter nonempty (prepend pend (split_nl s)).
+  fst (feed pend s) ++ log_pending (snd (feed pend s)) = filter nonempty (prepend pend (split_on sp s)).
 Proof.
   induction s as [|c r IH]; intros pend.
   - simpl. rewrite app_nil_r. unfold log_pending. now destruct (nonempty pend).
-  - destruct (c =? NL) eqn:E.
-    + apply Z.eqb_eq in E. subst c. rewrite split_nl_cons_nl. simpl.
+  - destruct (c =? sp) eqn:E.
+    + apply Z.eqb_eq in E. subst c. rewrite spliton_cons_nl. simpl feed. rewrite Z.eqb_refl. simpl.
       specialize (IH []). destruct (feed [] r) as [o p]. simpl in *.
       rewrite app_nil_r, <- app_assoc, IH.
-      destruct (split_nl r) as [|q qs] eqn:S; [exfalso; eapply split_nl_nonnil; eauto|].
+      destruct (split_on sp r) as [|q qs] eqn:S; [exfalso; eapply spliton_nonnil; eauto|].
       simpl. unfold log_pending. now destruct (nonempty pend).
-    + destruct (split_nl_cons_other c r E) as (q & qs & S & S'). rewrite S'. simpl feed. rewrite E.
+    + destruct (spliton_cons_other c r E) as (q & qs & S & S'). rewrite S'. simpl feed. rewrite E.
       rewrite IH, S. simpl. now rewrite <- app_assoc.
 Qed.
 
-Lemma prepend_nil : forall s, prepend [] (split_nl s) = split_nl s.
-Proof. intros s. destruct (split_nl s) eqn:E; [exfalso; eapply split_nl_nonnil; eauto|reflexivity]. Qed.
-
-Lemma stream_log_feed : forall chunks,
-  stream_log chunks = fst (feed [] (concat chunks)) ++ log_pending (snd (feed [] (concat chunks))).
-Proof. intros. unfold stream_log, flush. rewrite write_stream_feed. now destruct (feed [] (concat chunks)). Qed.
-
-(* THE property of the adapter: whatever the chunking, exactly the non-empty lines, complete, in order. *)
-Lemma stream_lines_exact_l : forall chunks, stream_log chunks = lines_of (concat chunks).
-Proof. intros. rewrite stream_log_feed, feed_lines, prepend_nil. reflexivity. Qed.
-
-Lemma chunking_irrelevant_l : forall c1 c2, concat c1 = concat c2 -> stream_log c1 = stream_log c2.
-Proof. intros. rewrite !stream_lines_exact_l. now f_equal. Qed.
+Lemma prepend_nil : forall s, prepend [] (split_on sp s) = split_on sp s.
+Proof. intros s. destruct (split_on sp s) eqn:E; [exfalso; eapply spliton_nonnil; eauto|reflexivity]. Qed.
 
 (* ---------- no byte lost, no separator inside a message, no empty message ---------- *)
 
-Definition no_nl (b : bytes) : Prop := ~ In NL b.
-Definition strip_nl (s : bytes) : bytes := filter (fun c => negb (c =? NL)) s.
+Definition no_nl (b : bytes) : Prop := ~ In sp b.
+Definition strip_nl (s : bytes) : bytes := filter (fun c => negb (c =? sp)) s.
 
 Lemma feed_bytes : forall s pend,
   concat (fst (feed pend s)) ++ snd (feed pend s) = pend ++ strip_nl s.
 Proof.
   induction s as [|c r IH]; intros pend; simpl.
   - now rewrite app_nil_r.
-  - destruct (c =? NL) eqn:E; simpl.
+  - destruct (c =? sp) eqn:E; simpl.
     + specialize (IH []). destruct (feed [] r) as [o p]. simpl in *.
       rewrite concat_app, <- app_assoc, IH. unfold log_pending. destruct (nonempty pend) eqn:N; simpl.
       * now rewrite app_nil_r.
@@ -130,17 +98,12 @@ Qed.
 Lemma log_pending_concat : forall p, concat (log_pending p) = p.
 Proof. intros [|x p]; simpl; [reflexivity|now rewrite app_nil_r]. Qed.
 
-Lemma stream_no_byte_lost_l : forall chunks, concat (stream_log chunks) = strip_nl (concat chunks).
-Proof.
-  intros. rewrite stream_log_feed, concat_app, log_pending_concat. now rewrite feed_bytes.
-Qed.
-
 Lemma feed_msgs_ok : forall s pend, no_nl pend ->
   Forall (fun m => no_nl m /\ m <> []) (fst (feed pend s)) /\ no_nl (snd (feed pend s)).
 Proof.
   induction s as [|c r IH]; intros pend Hp; simpl.
   - split; [constructor|exact Hp].
-  - destruct (c =? NL) eqn:E.
+  - destruct (c =? sp) eqn:E.
     + destruct (IH [] (fun H => H)) as [F N]. destruct (feed [] r) as [o p]. simpl in *. split; [|exact N].
       apply Forall_app. split; [|exact F]. unfold log_pending. destruct (nonempty pend) eqn:Ne; constructor; [|constructor].
       split; [exact Hp|]. intros ->. discriminate.
@@ -148,42 +111,186 @@ Proof.
       subst c. now rewrite Z.eqb_refl in E.
 Qed.
 
-Lemma stream_msgs_ok_l : forall chunks, Forall (fun m => no_nl m /\ m <> []) (stream_log chunks).
-Proof.
-  intros. rewrite stream_log_feed. destruct (feed_msgs_ok (concat chunks) [] (fun H => H)) as [F N].
-  apply Forall_app. split; [exact F|]. unfold log_pending.
-  destruct (nonempty (snd (feed [] (concat chunks)))) eqn:E; constructor; [|constructor].
-  split; [exact N|]. intros H. rewrite H in E. discriminate.
-Qed.
-
 (* ---------- the adapter before the fix: exact only when chunks end at line boundaries ---------- *)
 
-Lemma lines_of_app_nl : forall a b, lines_of (a ++ NL :: b) = lines_of a ++ lines_of b.
+Lemma feed_cons_sep : forall pend b,
+  feed pend (sp :: b) = let '(o, p) := feed [] b in (log_pending pend ++ o, p).
+Proof. intros. simpl. now rewrite Z.eqb_refl. Qed.
+
+Lemma linesof_app_nl : forall a b, lines_of sp (a ++ sp :: b) = lines_of sp a ++ lines_of sp b.
 Proof.
   intros a b. unfold lines_of.
-  pose proof (feed_lines (a ++ NL :: b) []) as H. rewrite prepend_nil in H. rewrite <- H. clear H.
-  rewrite feed_app. simpl.
+  pose proof (feed_lines (a ++ sp :: b) []) as H. rewrite prepend_nil in H. rewrite <- H. clear H.
+  rewrite feed_app.
   pose proof (feed_lines a []) as Ha. rewrite prepend_nil in Ha.
   pose proof (feed_lines b []) as Hb. rewrite prepend_nil in Hb.
-  destruct (feed [] a) as [o1 p1]. destruct (feed [] b) as [o2 p2]. simpl in *.
+  destruct (feed [] a) as [o1 p1]. rewrite feed_cons_sep. destruct (feed [] b) as [o2 p2]. simpl in *.
   rewrite <- Ha, <- Hb. now rewrite <- !app_assoc.
 Qed.
 
-Definition aligned (c : bytes) : Prop := c = [] \/ exists a, c = a ++ [NL].
+Definition aligned (c : bytes) : Prop := c = [] \/ exists a, c = a ++ [sp].
 
-Lemma lines_of_nil : lines_of [] = [].
+Lemma linesof_nil : lines_of sp [] = [].
 Proof. reflexivity. Qed.
 
 Lemma nocarry_aligned_l : forall chunks, Forall aligned chunks ->
-  stream_log_nocarry chunks = lines_of (concat chunks).
+  stream_log_nocarry sp chunks = lines_of sp (concat chunks).
 Proof.
   induction 1 as [|c cs Hc _ IH]; [reflexivity|].
-  simpl. rewrite IH. unfold write_chunk_nocarry. fold (lines_of c).
+  simpl. rewrite IH. 
   destruct Hc as [->|[a ->]]; [reflexivity|].
-  rewrite <- app_assoc. simpl. rewrite !lines_of_app_nl. simpl. now rewrite app_nil_r.
+  rewrite <- app_assoc. simpl. rewrite !linesof_app_nl. simpl. now rewrite app_nil_r.
 Qed.
 
-(* ---------- Execute ---------- *)
+
+Lemma spliton_line : forall m rest, no_nl m ->
+  split_on sp (m ++ sp :: rest) = m :: split_on sp rest.
+Proof.
+  induction m as [|c r IH]; intros rest H; [simpl; now rewrite Z.eqb_refl|].
+  assert (E : (c =? sp) = false). { apply Z.eqb_neq. intros ->. apply H. now left. }
+  simpl. rewrite E. rewrite IH; [reflexivity|]. intros X. apply H. now right.
+Qed.
+
+End Ref.
+
+Definition line_text (e : entry) : list bytes := match e with ELine _ m => [m] | _ => [] end.
+
+Lemma linesof_output_text : forall log,
+  Forall (fun m => no_nl 10 m /\ m <> []) (flat_map line_text log) ->
+  lines_of 10 (output_text log) = flat_map line_text log.
+Proof.
+  induction log as [|e r IH]; intros H; [reflexivity|].
+  destruct e as [|s m| |]; simpl in *; try (now apply IH).
+  inversion H as [|x l [Hn Hne] Hr]; subst. rewrite <- app_assoc. simpl.
+  unfold lines_of. rewrite (spliton_line 10) by exact Hn. simpl.
+  destruct m; [congruence|]. simpl. f_equal. now apply IH.
+Qed.
+
+
+
+(* ====================================================================================================================
+   Part 2: the interpreted adapter of a record of facts satisfying adapter_ok is the byte machine *)
+
+Lemma wops_eqb_eq : forall a b, wops_eqb a b = true -> a = b.
+Proof.
+  induction a as [|x xs IH]; destruct b as [|y ys]; simpl; intros H; try discriminate; [reflexivity|].
+  apply andb_prop in H. destruct H as [H1 H2]. f_equal; [destruct x, y; simpl in H1; congruence | now apply IH].
+Qed.
+
+Section Bridge.
+Variable F : facts.
+Hypothesis HA : adapter_ok F = true.
+
+Lemma adapter_fields :
+  loop_ops F = [WAppend; WLogPending] /\ tail_ops F = [WAppend] /\ flush_ops F = [WLogPending] /\
+  lp_resets F = true /\ lp_drops_empty F = true.
+Proof.
+  pose proof HA as H. unfold adapter_ok in H. repeat (apply andb_prop in H; destruct H as [H ?]).
+  repeat split; first [assumption | apply wops_eqb_eq; assumption].
+Qed.
+
+Lemma lp_msgs_eq : forall pend, lp_msgs F pend = log_pending pend.
+Proof.
+  intros pend. destruct adapter_fields as (_ & _ & _ & _ & D). unfold lp_msgs, log_pending. rewrite D.
+  now destruct pend.
+Qed.
+
+Lemma lp_next_eq : forall pend, lp_next F pend = [].
+Proof. intros. destruct adapter_fields as (_ & _ & _ & R & _). unfold lp_next. now rewrite R. Qed.
+
+Lemma loop_step : forall p out pend,
+  run_ops F (loop_ops F) p (out, pend) = (out ++ log_pending (pend ++ p), []).
+Proof.
+  intros. destruct adapter_fields as (L & _). rewrite L. simpl. now rewrite lp_msgs_eq, lp_next_eq.
+Qed.
+
+Lemma tail_step : forall p out pend, run_ops F (tail_ops F) p (out, pend) = (out, pend ++ p).
+Proof. intros. destruct adapter_fields as (_ & T & _). rewrite T. reflexivity. Qed.
+
+Lemma flush_eq : forall pend, flush F pend = (log_pending pend, []).
+Proof.
+  intros. destruct adapter_fields as (_ & _ & Fl & _). unfold flush. rewrite Fl. simpl.
+  now rewrite lp_msgs_eq, lp_next_eq.
+Qed.
+
+Lemma write_pieces_feed : forall s out pend,
+  write_pieces F (out, pend) (split_on (sep F) s) =
+  (out ++ fst (feed (sep F) pend s), snd (feed (sep F) pend s)).
+Proof.
+  induction s as [|c r IH]; intros out pend.
+  - simpl. rewrite tail_step. now rewrite !app_nil_r.
+  - destruct (c =? sep F) eqn:E.
+    + apply Z.eqb_eq in E. subst c. rewrite spliton_cons_nl, feed_cons_sep.
+      destruct (split_on (sep F) r) as [|q qs] eqn:S; [exfalso; eapply spliton_nonnil; eauto|].
+      change (write_pieces F (out, pend) ([] :: q :: qs)) with
+        (write_pieces F (run_ops F (loop_ops F) [] (out, pend)) (q :: qs)).
+      rewrite loop_step, app_nil_r, IH. destruct (feed (sep F) [] r). simpl. now rewrite app_assoc.
+    + destruct (spliton_cons_other (sep F) c r E) as (q & qs & S & S'). rewrite S'.
+      simpl feed. rewrite E. specialize (IH out (pend ++ [c])). rewrite S in IH. rewrite <- IH.
+      destruct qs as [|q' qs'].
+      * simpl. rewrite !tail_step. now rewrite <- app_assoc.
+      * change (write_pieces F (out, pend) ((c :: q) :: q' :: qs')) with
+          (write_pieces F (run_ops F (loop_ops F) (c :: q) (out, pend)) (q' :: qs')).
+        change (write_pieces F (out, pend ++ [c]) (q :: q' :: qs')) with
+          (write_pieces F (run_ops F (loop_ops F) q (out, pend ++ [c])) (q' :: qs')).
+        rewrite !loop_step. now rewrite <- app_assoc.
+Qed.
+
+(* logStreamer.Write is the byte-by-byte machine run over the chunk. *)
+Lemma write_chunk_feed : forall p pend, write_chunk F pend p = feed (sep F) pend p.
+Proof. intros. unfold write_chunk. rewrite write_pieces_feed. now destruct (feed (sep F) pend p). Qed.
+
+Lemma write_stream_feed : forall chunks pend, write_stream F pend chunks = feed (sep F) pend (concat chunks).
+Proof.
+  induction chunks as [|c cs IH]; intros pend; simpl; [reflexivity|].
+  rewrite feed_app, write_chunk_feed. destruct (feed (sep F) pend c) as [o1 p1]. now rewrite IH.
+Qed.
+
+Lemma stream_log_feed : forall chunks,
+  stream_log F chunks = fst (feed (sep F) [] (concat chunks)) ++ log_pending (snd (feed (sep F) [] (concat chunks))).
+Proof.
+  intros. unfold stream_log. rewrite write_stream_feed. destruct (feed (sep F) [] (concat chunks)).
+  now rewrite flush_eq.
+Qed.
+
+(* THE property of the adapter: whatever the chunking, exactly the non-empty lines, complete, in order. *)
+Lemma stream_lines_exact_g : forall chunks, stream_log F chunks = lines_of (sep F) (concat chunks).
+Proof. intros. rewrite stream_log_feed, feed_lines, prepend_nil. reflexivity. Qed.
+
+Lemma chunking_irrelevant_g : forall c1 c2, concat c1 = concat c2 -> stream_log F c1 = stream_log F c2.
+Proof. intros. rewrite !stream_lines_exact_g. now f_equal. Qed.
+
+Lemma stream_no_byte_lost_g : forall chunks, concat (stream_log F chunks) = strip_nl (sep F) (concat chunks).
+Proof. intros. rewrite stream_log_feed, concat_app, log_pending_concat. now rewrite feed_bytes. Qed.
+
+Lemma stream_msgs_ok_g : forall chunks, Forall (fun m => no_nl (sep F) m /\ m <> []) (stream_log F chunks).
+Proof.
+  intros. rewrite stream_log_feed. destruct (feed_msgs_ok (sep F) (concat chunks) [] (fun H => H)) as [Fo N].
+  apply Forall_app. split; [exact Fo|]. unfold log_pending.
+  destruct (nonempty (snd (feed (sep F) [] (concat chunks)))) eqn:E; constructor; [|constructor].
+  split; [exact N|]. intros H. rewrite H in E. discriminate.
+Qed.
+
+Lemma lines_of_ok : forall s, Forall (fun m => no_nl (sep F) m /\ m <> []) (lines_of (sep F) s).
+Proof.
+  intros s. replace s with (concat [s]) by (simpl; apply app_nil_r).
+  rewrite <- stream_lines_exact_g. apply stream_msgs_ok_g.
+Qed.
+
+(* ---------- the two adapters of a command ---------- *)
+
+Hypothesis HW : wiring_ok F = true.
+
+Lemma wiring_fields :
+  out_route F = SOut /\ err_route F = SErr /\ run_flush F = true /\
+  (flush_streams F = [SOut; SErr] \/ flush_streams F = [SErr; SOut]).
+Proof.
+  pose proof HW as H. unfold wiring_ok in H. repeat (apply andb_prop in H; destruct H as [H ?]).
+  unfold out_route, err_route, route. rewrite H.
+  destruct (stdout_flag F); [discriminate|]. destruct (stderr_flag F); [|discriminate].
+  repeat split; try assumption.
+  destruct (flush_streams F) as [|[|] [|[|] [|? ?]]]; try discriminate; auto.
+Qed.
 
 Lemma proj_app : forall s a b, proj s (a ++ b) = proj s a ++ proj s b.
 Proof. intros. unfold proj. now rewrite flat_map_app. Qed.
@@ -198,144 +305,96 @@ Proof.
 Qed.
 
 Lemma run_events_out : forall evs a,
-  proj SOut (fst (run_events a evs)) = fst (feed (fst a) (stream_bytes SOut evs)) /\
-  fst (snd (run_events a evs)) = snd (feed (fst a) (stream_bytes SOut evs)).
+  proj SOut (fst (run_events F a evs)) = fst (feed (sep F) (fst a) (stream_bytes SOut evs)) /\
+  fst (snd (run_events F a evs)) = snd (feed (sep F) (fst a) (stream_bytes SOut evs)).
 Proof.
+  destruct wiring_fields as (Ro & Re & _).
   induction evs as [|[s p] r IH]; intros [po pe]; [simpl; auto|].
-  simpl run_events. destruct s; simpl write_event.
+  simpl run_events. destruct s; simpl write_event; rewrite ?Ro, ?Re.
   - rewrite write_chunk_feed. simpl stream_bytes. rewrite feed_app. cbn [fst snd].
-    destruct (feed po p) as [ms po'] eqn:F. specialize (IH (po', pe)). simpl in IH.
-    destruct (run_events (po', pe) r) as [o2 a2]. simpl in *.
-    destruct (feed po' (stream_bytes SOut r)) as [o3 p3]. simpl in *. destruct IH as [I1 I2].
+    destruct (feed (sep F) po p) as [ms po'] eqn:Fe. specialize (IH (po', pe)). simpl in IH.
+    destruct (run_events F (po', pe) r) as [o2 a2]. simpl in *.
+    destruct (feed (sep F) po' (stream_bytes SOut r)) as [o3 p3]. simpl in *. destruct IH as [I1 I2].
     rewrite proj_app, proj_tag_same, I1. auto.
   - rewrite write_chunk_feed. simpl stream_bytes.
-    destruct (feed pe p) as [ms pe'] eqn:F. specialize (IH (po, pe')). simpl in IH.
-    destruct (run_events (po, pe') r) as [o2 a2]. simpl in *. destruct IH as [I1 I2].
+    destruct (feed (sep F) pe p) as [ms pe'] eqn:Fe. specialize (IH (po, pe')). simpl in IH.
+    destruct (run_events F (po, pe') r) as [o2 a2]. simpl in *. destruct IH as [I1 I2].
     rewrite proj_app, proj_tag_other by discriminate. auto.
 Qed.
 
 Lemma run_events_err : forall evs a,
-  proj SErr (fst (run_events a evs)) = fst (feed (snd a) (stream_bytes SErr evs)) /\
-  snd (snd (run_events a evs)) = snd (feed (snd a) (stream_bytes SErr evs)).
+  proj SErr (fst (run_events F a evs)) = fst (feed (sep F) (snd a) (stream_bytes SErr evs)) /\
+  snd (snd (run_events F a evs)) = snd (feed (sep F) (snd a) (stream_bytes SErr evs)).
 Proof.
+  destruct wiring_fields as (Ro & Re & _).
   induction evs as [|[s p] r IH]; intros [po pe]; [simpl; auto|].
-  simpl run_events. destruct s; simpl write_event.
+  simpl run_events. destruct s; simpl write_event; rewrite ?Ro, ?Re.
   - rewrite write_chunk_feed. simpl stream_bytes.
-    destruct (feed po p) as [ms po'] eqn:F. specialize (IH (po', pe)). simpl in IH.
-    destruct (run_events (po', pe) r) as [o2 a2]. simpl in *. destruct IH as [I1 I2].
+    destruct (feed (sep F) po p) as [ms po'] eqn:Fe. specialize (IH (po', pe)). simpl in IH.
+    destruct (run_events F (po', pe) r) as [o2 a2]. simpl in *. destruct IH as [I1 I2].
     rewrite proj_app, proj_tag_other by discriminate. auto.
   - rewrite write_chunk_feed. simpl stream_bytes. rewrite feed_app. cbn [fst snd].
-    destruct (feed pe p) as [ms pe'] eqn:F. specialize (IH (po, pe')). simpl in IH.
-    destruct (run_events (po, pe') r) as [o2 a2]. simpl in *.
-    destruct (feed pe' (stream_bytes SErr r)) as [o3 p3]. simpl in *. destruct IH as [I1 I2].
+    destruct (feed (sep F) pe p) as [ms pe'] eqn:Fe. specialize (IH (po, pe')). simpl in IH.
+    destruct (run_events F (po, pe') r) as [o2 a2]. simpl in *.
+    destruct (feed (sep F) pe' (stream_bytes SErr r)) as [o3 p3]. simpl in *. destruct IH as [I1 I2].
     rewrite proj_app, proj_tag_same, I1. auto.
+Qed.
+
+Lemma flush_output_out : forall a, proj SOut (flush_output F a) = log_pending (fst a).
+Proof.
+  intros a. destruct wiring_fields as (Ro & Re & Rf & [S|S]); unfold flush_output; rewrite Rf, S; simpl;
+    rewrite Ro, Re, !flush_eq; simpl; rewrite ?app_nil_r, proj_app, proj_tag_same, proj_tag_other by discriminate;
+    now rewrite ?app_nil_r.
+Qed.
+
+Lemma flush_output_err : forall a, proj SErr (flush_output F a) = log_pending (snd a).
+Proof.
+  intros a. destruct wiring_fields as (Ro & Re & Rf & [S|S]); unfold flush_output; rewrite Rf, S; simpl;
+    rewrite Ro, Re, !flush_eq; simpl; rewrite ?app_nil_r, proj_app, proj_tag_same, proj_tag_other by discriminate;
+    now rewrite ?app_nil_r.
 Qed.
 
 (* Everything the two adapters log during one run, flushed: per stream exactly the non-empty lines of that stream,
    for every interleaving of the reads of the two pipes and every chunking. *)
-Definition child_log (evs : list (stream * bytes)) : list entry :=
-  let '(logged, a) := run_events ([], []) evs in logged ++ flush_output a.
-
-Lemma child_log_out : forall evs, proj SOut (child_log evs) = lines_of (stream_bytes SOut evs).
+Lemma child_log_out : forall evs, proj SOut (child_log F evs) = lines_of (sep F) (stream_bytes SOut evs).
 Proof.
   intros. unfold child_log. destruct (run_events_out evs ([], [])) as [H1 H2].
-  destruct (run_events ([], []) evs) as [logged a]. simpl in *.
-  unfold flush_output. rewrite !proj_app, proj_tag_same, proj_tag_other, app_nil_r by discriminate.
-  rewrite H1, H2. unfold flush. rewrite feed_lines, prepend_nil. reflexivity.
+  destruct (run_events F ([], []) evs) as [logged a]. simpl in *.
+  rewrite proj_app, flush_output_out, H1, H2, feed_lines, prepend_nil. reflexivity.
 Qed.
 
-Lemma child_log_err : forall evs, proj SErr (child_log evs) = lines_of (stream_bytes SErr evs).
+Lemma child_log_err : forall evs, proj SErr (child_log F evs) = lines_of (sep F) (stream_bytes SErr evs).
 Proof.
   intros. unfold child_log. destruct (run_events_err evs ([], [])) as [H1 H2].
-  destruct (run_events ([], []) evs) as [logged a]. simpl in *.
-  unfold flush_output. rewrite !proj_app, proj_tag_same, proj_tag_other by discriminate. simpl.
-  rewrite H1, H2. unfold flush. rewrite feed_lines, prepend_nil. reflexivity.
+  destruct (run_events F ([], []) evs) as [logged a]. simpl in *.
+  rewrite proj_app, flush_output_err, H1, H2, feed_lines, prepend_nil. reflexivity.
 Qed.
 
 Lemma tag_is_line : forall s ms, forallb is_line (tag s ms) = true.
 Proof. induction ms; simpl; auto. Qed.
 
-Lemma run_events_lines : forall evs a, forallb is_line (fst (run_events a evs)) = true.
+Lemma run_events_lines : forall evs a, forallb is_line (fst (run_events F a evs)) = true.
 Proof.
   induction evs as [|[s p] r IH]; intros a; [reflexivity|]. simpl run_events.
   destruct s; simpl write_event.
-  - destruct (write_chunk (fst a) p) as [ms po]. specialize (IH (po, snd a)).
-    destruct (run_events (po, snd a) r). simpl in *. now rewrite forallb_app, tag_is_line.
-  - destruct (write_chunk (snd a) p) as [ms pe]. specialize (IH (fst a, pe)).
-    destruct (run_events (fst a, pe) r). simpl in *. now rewrite forallb_app, tag_is_line.
+  - destruct (write_chunk F (fst a) p) as [ms po]. specialize (IH (po, snd a)).
+    destruct (run_events F (po, snd a) r). simpl in *. now rewrite forallb_app, tag_is_line.
+  - destruct (write_chunk F (snd a) p) as [ms pe]. specialize (IH (fst a, pe)).
+    destruct (run_events F (fst a, pe) r). simpl in *. now rewrite forallb_app, tag_is_line.
 Qed.
 
-Lemma child_log_lines : forall evs, forallb is_line (child_log evs) = true.
+Lemma flush_output_lines : forall a, forallb is_line (flush_output F a) = true.
+Proof.
+  intros a. unfold flush_output. destruct (run_flush F); [|reflexivity].
+  induction (flush_streams F) as [|s r IH]; [reflexivity|]. simpl. rewrite forallb_app, IH.
+  destruct s; simpl; now rewrite tag_is_line.
+Qed.
+
+Lemma child_log_lines : forall evs, forallb is_line (child_log F evs) = true.
 Proof.
   intros. unfold child_log. pose proof (run_events_lines evs ([], [])) as H.
-  destruct (run_events ([], []) evs) as [logged a]. simpl in *.
-  unfold flush_output. now rewrite !forallb_app, H, !tag_is_line.
-Qed.
-
-Definition ran (o : outcome) : bool := match o with Exited _ | Signaled _ => true | _ => false end.
-
-Lemma execute_shape : forall wm ctx o evs,
-  execute wm ctx o evs =
-  ((if wm then [EStart] else []) ++ child_log (if ran o then evs else []) ++
-   (if wm then [end_entry (execute_error ctx o)] else []), execute_error ctx o).
-Proof.
-  intros. unfold execute, child_log.
-  assert (E : match o with Exited _ | Signaled _ => evs | _ => [] end = if ran o then evs else [])
-    by (destruct o; reflexivity).
-  rewrite E. destruct (run_events ([], []) (if ran o then evs else [])). reflexivity.
-Qed.
-
-(* ---------- exit status ---------- *)
-
-Lemma convert_nil_iff : forall o, convert_process_error o = ENil <-> o = Exited 0.
-Proof.
-  intros o; split.
-  - destruct o as [c|s|k| |]; simpl; try discriminate.
-    + destruct (c =? 0) eqn:E; [apply Z.eqb_eq in E; now subst|discriminate].
-    + destruct ((s =? 9) || (s =? 15)); discriminate.
-    + destruct k; discriminate.
-  - intros ->. reflexivity.
-Qed.
-
-Lemma execute_error_nil_iff : forall ctx o, execute_error ctx o = ENil <-> o = Exited 0.
-Proof.
-  intros ctx o. rewrite <- convert_nil_iff. unfold execute_error.
-  destruct (convert_process_error o) eqn:E; split; intros H; try reflexivity; try discriminate;
-    destruct ctx as [[|]|]; discriminate.
-Qed.
-
-Lemma execute_error_ctx : forall k o, o <> Exited 0 ->
-  execute_error (Some k) o = match k with CtxCancelled => ECancelled | CtxDeadline => ETimeout end.
-Proof.
-  intros k o H. unfold execute_error.
-  destruct (convert_process_error o) eqn:E; try (destruct k; reflexivity).
-  apply convert_nil_iff in E. contradiction.
-Qed.
-
-Lemma execute_error_noctx : forall o, execute_error None o = convert_process_error o.
-Proof. intros o. unfold execute_error. now destruct (convert_process_error o). Qed.
-
-(* ---------- Output ---------- *)
-
-Definition line_text (e : entry) : list bytes := match e with ELine _ m => [m] | _ => [] end.
-
-Lemma split_nl_line : forall m rest, no_nl m ->
-  split_nl (m ++ NL :: rest) = m :: split_nl rest.
-Proof.
-  induction m as [|c r IH]; intros rest H; [reflexivity|].
-  assert (E : (c =? NL) = false). { apply Z.eqb_neq. intros ->. apply H. now left. }
-  simpl. rewrite E. rewrite IH; [reflexivity|]. intros X. apply H. now right.
-Qed.
-
-Lemma lines_of_output_text : forall log,
-  Forall (fun m => no_nl m /\ m <> []) (flat_map line_text log) ->
-  lines_of (output_text log) = flat_map line_text log.
-Proof.
-  induction log as [|e r IH]; intros H; [reflexivity|].
-  destruct e as [|s m| |]; simpl in *; try (now apply IH).
-  inversion H as [|x l [Hn Hne] Hr]; subst. rewrite <- app_assoc. simpl.
-  unfold lines_of. rewrite split_nl_line by exact Hn. simpl.
-  destruct m; [congruence|]. simpl. f_equal. now apply IH.
+  destruct (run_events F ([], []) evs) as [logged a]. simpl in *.
+  now rewrite forallb_app, H, flush_output_lines.
 Qed.
 
 Lemma in_line_proj : forall log s m, In (ELine s m) log -> In m (proj s log).
@@ -345,13 +404,8 @@ Proof.
   destruct H as [->|H]; [left; destruct s; simpl; auto|right; apply IH; exact H].
 Qed.
 
-Lemma lines_of_ok : forall s, Forall (fun m => no_nl m /\ m <> []) (lines_of s).
-Proof.
-  intros s. replace s with (concat [s]) by (simpl; apply app_nil_r).
-  rewrite <- stream_lines_exact_l. apply stream_msgs_ok_l.
-Qed.
-
-Lemma child_log_texts_ok : forall evs, Forall (fun m => no_nl m /\ m <> []) (flat_map line_text (child_log evs)).
+Lemma child_log_texts_ok : forall evs,
+  Forall (fun m => no_nl (sep F) m /\ m <> []) (flat_map line_text (child_log F evs)).
 Proof.
   intros evs. apply Forall_forall. intros m H. apply in_flat_map in H. destruct H as (e & He & Hm).
   destruct e as [|s x| |]; simpl in Hm; try contradiction. destruct Hm as [->|[]].
@@ -360,16 +414,118 @@ Proof.
     eapply Forall_forall in He; try apply lines_of_ok; exact He.
 Qed.
 
-Lemma execute_middle : forall ctx o evs,
-  let e := execute_error ctx o in
-  let middle := child_log (if ran o then evs else []) in
-  execute true ctx o evs = (EStart :: middle ++ [end_entry e], e).
-Proof. intros. rewrite execute_shape. reflexivity. Qed.
+End Bridge.
 
-Lemma end_entry_ok_iff : forall e, end_entry e = EEndOk <-> e = ENil.
-Proof. intros e; destruct e; simpl; split; intros H; try reflexivity; discriminate. Qed.
+(* ====================================================================================================================
+   Part 3: Execute, exit status, Output *)
 
-Lemma output_shape : forall ctx o evs,
-  output ctx o evs = (output_text (child_log (if ran o then evs else [])),
-                      child_log (if ran o then evs else []), execute_error ctx o).
-Proof. intros. unfold output. rewrite execute_shape. simpl. now rewrite app_nil_r. Qed.
+Lemma xops_eqb_eq : forall a b, xops_eqb a b = true -> a = b.
+Proof.
+  induction a as [|x xs IH]; destruct b as [|y ys]; simpl; intros H; try discriminate; [reflexivity|].
+  apply andb_prop in H. destruct H as [H1 H2]. f_equal; [|now apply IH].
+  destruct x as [| |[|]|], y as [| |[|]|]; simpl in H1; congruence.
+Qed.
+
+Section Exec.
+Variable F : facts.
+
+(* ---------- exit status: ConvertProcessError ---------- *)
+
+Lemma base_kind_nil_iff : forall o, base_kind F o = ENil <-> o = Exited 0.
+Proof.
+  intros o; split.
+  - destruct o as [c|s|k| |]; simpl; try discriminate.
+    + destruct (c =? 0) eqn:E; [apply Z.eqb_eq in E; now subst|discriminate].
+    + destruct (conv_ctx_first F); [destruct k|]; discriminate.
+  - intros ->. reflexivity.
+Qed.
+
+Lemma apply_rules_nil_iff : forall rs o, forallb rule_ok rs = true ->
+  (apply_rules F rs o = ENil <-> o = Exited 0).
+Proof.
+  induction rs as [|[c a] r IH]; intros o H; [apply base_kind_nil_iff|].
+  simpl in H. apply andb_prop in H. destruct H as [Hr H]. simpl.
+  destruct (cond_holds c o) eqn:C; [|now apply IH].
+  destruct c, o; simpl in C; try discriminate.
+  - (* err == nil, Exited with status 0 *)
+    apply Z.eqb_eq in C. subst code.
+    destruct a; simpl in Hr; try discriminate; simpl; split; auto.
+  - (* signal text *)
+    destruct a; simpl in Hr; try discriminate; simpl; split; intros X; discriminate.
+  - (* exec.ErrNotFound *)
+    destruct a; simpl in Hr; try discriminate; simpl; split; intros X; discriminate.
+Qed.
+
+Hypothesis HX : exit_ok F = true.
+
+Lemma convert_nil_iff : forall o, convert_process_error F o = ENil <-> o = Exited 0.
+Proof.
+  intros o. unfold convert_process_error. destruct (run_converts F); [|apply base_kind_nil_iff].
+  apply apply_rules_nil_iff. exact HX.
+Qed.
+
+(* ---------- Execute ---------- *)
+
+Hypothesis HE : exec_ok F = true.
+
+Lemma exec_fields : exec_seq F = [XLogStart; XRun; XCtxOverride CtxProcess; XLogEnd] /\ end_ok_iff_nil F = true.
+Proof.
+  pose proof HE as H. unfold exec_ok in H. apply andb_prop in H. destruct H as [H1 H2].
+  split; [now apply xops_eqb_eq|assumption].
+Qed.
+
+(* the error Execute returns *)
+Definition exec_err (ctx : option ctxk) (o : outcome) : errk :=
+  match convert_process_error F o with
+  | ENil => ENil
+  | e => match ctx with Some k => ctx_kind k | None => e end
+  end.
+
+Lemma execute_shape : forall wm ctx pctx o evs,
+  execute F wm ctx pctx o evs =
+  ((if wm then [EStart] else []) ++ child_log F (if ran o then evs else []) ++
+   (if wm then [end_entry F (exec_err ctx o)] else []), exec_err ctx o).
+Proof.
+  intros. destruct exec_fields as [S _]. unfold execute. rewrite S. simpl. unfold exec_err.
+  now rewrite <- app_assoc.
+Qed.
+
+Lemma execute_error_eq : forall ctx pctx o, execute_error F ctx pctx o = exec_err ctx o.
+Proof. intros. unfold execute_error. now rewrite execute_shape. Qed.
+
+Lemma exec_err_nil_iff : forall ctx o, exec_err ctx o = ENil <-> o = Exited 0.
+Proof.
+  intros ctx o. rewrite <- convert_nil_iff. unfold exec_err.
+  destruct (convert_process_error F o) eqn:E; split; intros H; try reflexivity; try discriminate;
+    destruct ctx as [[|]|]; discriminate.
+Qed.
+
+Lemma exec_err_ctx : forall k o, o <> Exited 0 -> exec_err (Some k) o = ctx_kind k.
+Proof.
+  intros k o H. unfold exec_err.
+  destruct (convert_process_error F o) eqn:E; try reflexivity.
+  apply convert_nil_iff in E. contradiction.
+Qed.
+
+Lemma exec_err_noctx : forall o, exec_err None o = convert_process_error F o.
+Proof. intros o. unfold exec_err. now destruct (convert_process_error F o). Qed.
+
+Lemma end_entry_ok_iff : forall e, end_entry F e = EEndOk <-> e = ENil.
+Proof.
+  intros e. destruct exec_fields as [_ N]. unfold end_entry. rewrite N.
+  destruct e; simpl; split; intros H; try reflexivity; discriminate.
+Qed.
+
+(* ---------- Output ---------- *)
+
+Hypothesis HO : output_ok F = true.
+
+Lemma output_shape : forall ctx pctx o evs,
+  output F ctx pctx o evs =
+  (output_text (child_log F (if ran o then evs else [])), child_log F (if ran o then evs else []), exec_err ctx o).
+Proof.
+  intros. pose proof HO as H. unfold output_ok in H. apply andb_prop in H. destruct H as [H1 H2].
+  unfold output. rewrite execute_shape, H1, H2. simpl. now rewrite app_nil_r.
+Qed.
+
+End Exec.
